@@ -157,6 +157,10 @@ def shards(tier, seed):
     return [{"tok": t, "r": r, "n": 32} for t in toks for r in range(32)]
 
 
+def opt_shards(tier):
+    return [{"tok": "AC", "r": r, "n": 16} for r in range(16)]
+
+
 def run_shard(sh):
     st = Stats()
     p = st.part(sh["tok"])
